@@ -980,6 +980,9 @@ def execute(scenario, open_sigs):
             except (InjectedInterrupt, RecursionError):
                 raise
             except Exception as e:  # noqa: BLE001
+                if type(probe_obj) is type(ko) and _fieldwise_undefined(probe_obj, ko, type(e)):
+                    probe("undefined_field_comparisons")
+                    return ["lookup", None]
                 viol("C01/hash-raised", {"obj": key, "exc": f"{type(e).__name__}: {e}"[:200],
                                          "canon": str(W.canon0[key])[:400]})
                 return ["lookup", None]
